@@ -1,3 +1,55 @@
+import Invoke.Model.RunnerIO
+import Invoke.Model.Decode
 import Driver.Util
-/-! stub: replaced by the owner of this driver -/
-def main : IO Unit := Drv.mainLoop (fun _ => "bad-op")
+open Inv Drv
+
+def hexVal (c : Char) : Nat :=
+  if c.isDigit then c.toNat - '0'.toNat else if 'a' ≤ c ∧ c ≤ 'f' then c.toNat - 'a'.toNat + 10 else 0
+def unhex : List Char → List Nat
+  | a :: b :: r => (hexVal a * 16 + hexVal b) :: unhex r
+  | _ => []
+def hexDigit (n : Nat) : Char := if n < 10 then Char.ofNat (n + '0'.toNat) else Char.ofNat (n - 10 + 'a'.toNat)
+def hex (bs : List Nat) : String := String.ofList (bs.flatMap fun b => [hexDigit (b / 16), hexDigit (b % 16)])
+def splitNE (s : String) (sep : String) : List String := if s == "" then [] else s.splitOn sep
+def decChunk (s : String) : Chunk := unhex s.toList
+def parseIn (s : String) : InItem := if s == "~" then .notReady else if s == "$" then .eof else .data (decChunk s)
+
+def parseEv (t : String) : Option Ev :=
+  match t with
+  | "main" => some (.act .main) | "out" => some (.act .out) | "err" => some (.act .err)
+  | "stdin" => some (.act .stdin) | "timer" => some (.act .timer)
+  | "wo" => some (.env .writeOut) | "we" => some (.env .writeErr)
+  | "co" => some (.env .closeOut) | "ce" => some (.env .closeErr)
+  | "int" => some (.env .interrupt) | "fo" => some (.env .faultOut) | "fe" => some (.env .faultErr)
+  | _ => if t.startsWith "x" then (t.drop 1).toString.toInt?.map (fun rc => .env (.exit rc)) else none
+
+def showOutcome : Outcome → String
+  | .pending => "pending" | .ret e => s!"return:{e}" | .timedOut e => s!"raise:CommandTimedOut:{e}"
+  | .unexpected e => s!"raise:UnexpectedExit:{e}" | .threadExc => "raise:ThreadException" | .startFailed => "raise:StartFailed"
+
+/-- decoded text of a capture list: incremental decoder, flushed only if the reader saw EOF -/
+def textOf (cap : List Chunk) (pc : RdPc) : String :=
+  let r := utf8.runChunks utf8.init cap
+  encChars (r.2 ++ (if pc = .done then utf8.flush r.1 else []))
+
+def b (x : String) : Bool := x == "1"
+
+def step' (line : String) : String :=
+  match line.splitOn "|" with
+  | [flags, outc, errc, ins, sched] =>
+    match flags.splitOn "," with
+    | [hi, ht, w, p, eo, tty, ho, sf, rs] =>
+      let e : Bool := effEcho (if eo == "1" then some true else if eo == "2" then some false else none) (b p) (b tty)
+      let s0 := S.init (b hi) (b ht) (b w) (b p) e ((splitNE outc ",").map decChunk) ((splitNE errc ",").map decChunk)
+                  ((splitNE ins ",").map parseIn) (b ho) (b sf) (rs.toNat?.getD 1000)
+      let s := run s0 ((splitNE sched ",").filterMap parseEv)
+      let alive := (if s.outPc = .read then "out," else "") ++ (if !s.pty && s.errPc = .read then "err," else "")
+                   ++ (if s.hasStdin && s.inPc ≠ .done then "stdin," else "")
+      "|".intercalate [(if s.mainPc = .done then showOutcome s.outcome else "pending"), hex s.capOut.flatten, hex s.capErr.flatten,
+        textOf s.capOut s.outPc, textOf s.capErr s.errPc, hex s.childStdin.flatten, toString s.closeCount,
+        toString s.kills, toString s.killsAfterReturn, hex s.echoed.flatten,
+        (if s.mainPc = .done then "done" else "notdone"), alive]
+    | _ => "bad-flags"
+  | _ => "bad-op"
+
+def main : IO Unit := mainLoop step'
